@@ -222,23 +222,91 @@ def _wrap(args):
             signal.alarm(0)
 
 
+def _worker_main(conn, fn):
+    _limits()
+    while True:
+        try:
+            msg = conn.recv()
+        except EOFError:
+            return
+        if msg is None:
+            return
+        i, item = msg
+        r = _wrap((fn, item))
+        try:
+            conn.send((i, r))
+        except Exception as e:                      # unpicklable / oversized result
+            conn.send((i, {"crash": f"{type(e).__name__}: result could not be returned: {e}", "trace": "", "item": item}))
+
+
 def pmap(fn, items, jobs=None, chunksize=1):
-    """Parallel map with fork workers (each worker owns a z3 context and an fdriver)."""
+    """Parallel map with fork workers (each worker owns a z3 context and an fdriver).  The parent hands items out one at a
+    time over a pipe per worker, so it always knows which item a worker holds: when a worker process dies (z3 aborts the
+    process with an uncaught C++ out_of_memory_error once its memory cap is reached; the kernel may kill it) that item is
+    recorded as a crash ('solver resource limit' for SIGABRT/SIGKILL/SIGSEGV-free deaths -> undecided) and a fresh worker
+    takes over - a multiprocessing.Pool would wait for the lost result for ever."""
     items = list(items)
     jobs = jobs or nworkers()
     if jobs <= 1 or len(items) <= 1:
         return [_wrap((fn, it)) for it in items]
     from smt import drv
+    from multiprocessing.connection import wait as conn_wait
     drv.build()
     ctx = multiprocessing.get_context("fork")
-    _pool_init = _limits
-    with ctx.Pool(jobs, initializer=_pool_init) as pool:
-        if not os.environ.get("VERIF_PROGRESS"):
-            return pool.map(_wrap, [(fn, it) for it in items], chunksize=chunksize)
-        # progress on stderr (VERIF_PROGRESS=1): long thorough runs are otherwise silent for an hour
-        out = []; t0 = time.time()
-        for k, r in enumerate(pool.imap(_wrap, [(fn, it) for it in items], chunksize=chunksize)):
-            out.append(r)
-            if (k + 1) % max(1, len(items) // 40) == 0:
-                print(f"[progress] {k + 1}/{len(items)} items, {time.time() - t0:.0f}s", file=sys.stderr, flush=True)
-        return out
+    results = [None] * len(items)
+    nxt = 0; done = 0; t0 = time.time()
+    progress = bool(os.environ.get("VERIF_PROGRESS"))
+    workers = {}            # parent conn -> [process, index of the item it holds or None]
+
+    def spawn():
+        pc, cc = ctx.Pipe()
+        pr = ctx.Process(target=_worker_main, args=(cc, fn), daemon=True)
+        pr.start(); cc.close()
+        workers[pc] = [pr, None]
+        return pc
+
+    def feed(pc):
+        nonlocal nxt
+        if nxt < len(items):
+            workers[pc][1] = nxt
+            pc.send((nxt, items[nxt])); nxt += 1
+        else:
+            workers[pc][1] = None
+            try: pc.send(None)
+            except Exception: pass
+
+    for _ in range(min(jobs, len(items))):
+        feed(spawn())
+    while done < len(items):
+        ready = conn_wait(list(workers.keys()), timeout=5)
+        for pc in ready:
+            pr, held = workers[pc]
+            try:
+                i, r = pc.recv()
+            except (EOFError, OSError):
+                # the worker is gone
+                pr.join(timeout=5)
+                del workers[pc]
+                try: pc.close()
+                except Exception: pass
+                if held is not None and results[held] is None:
+                    code = pr.exitcode
+                    kind = "solver resource limit: " if code in (-6, -9, None) else ""
+                    results[held] = {"crash": f"{kind}worker process died (exit code {code}) while working on this item", "trace": "", "item": items[held]}
+                    done += 1
+                if nxt < len(items):
+                    feed(spawn())
+                continue
+            results[i] = r; done += 1
+            if progress and done % max(1, len(items) // 40) == 0:
+                print(f"[progress] {done}/{len(items)} items, {time.time() - t0:.0f}s", file=sys.stderr, flush=True)
+            feed(pc)
+        if not workers and done < len(items):
+            feed(spawn())
+    for pc, (pr, _) in list(workers.items()):
+        try: pc.send(None)
+        except Exception: pass
+    for pc, (pr, _) in list(workers.items()):
+        pr.join(timeout=2)
+        if pr.is_alive(): pr.terminate()
+    return results
